@@ -66,13 +66,14 @@ class Run:
 
 
 def write_replay(pid, idx, payload):
-    d = os.path.join(ROOT, "replays", pid)
+    out_root = os.environ.get("VERIF_OUT") or ROOT
+    d = os.path.join(out_root, "replays", pid)
     os.makedirs(d, exist_ok=True)
     name = "".join(c if c.isalnum() or c in "._-" else "_" for c in payload.get("key", f"v{idx}"))[:120]
     path = os.path.join(d, f"{idx:02d}_{name}.json")
     with open(path, "w") as fh:
         json.dump(payload, fh, indent=1, default=repr)
-    return os.path.relpath(path, ROOT)
+    return os.path.relpath(path, out_root)
 
 
 def main(argv=None):
